@@ -17,7 +17,11 @@ RULE = ("Hypothesis draws an OPF problem as for C16 (network, controllable flags
         "of the user's cost functions evaluated by the harness at the element's own result power (dcline: p_from_mw). Oracle B (DC): "
         "the optimum of an independent DC-OPF (own susceptance model from the element tables, table limits, documented dcline loss "
         "relation; HiGHS LP with epigraph variables for linear/pwl costs, trust-constr/SLSQP for convex quadratic costs) equals "
-        "res_cost; a lower pandapower cost is classified as infeasible, a higher one as sub-optimal. Non-trivial = converged and "
+        "res_cost; a lower pandapower cost is classified as infeasible, a higher one as sub-optimal. Signatures: a res_cost deviation that is "
+        "exactly explained by the recorded shapes (entry of a non-dispatched element left out; poly entry next to pwl costs keeps only "
+        "cp1; q constant without q slope) is reported per shape (res_cost/<shape>), anything else as res_cost/<mode>/other; a "
+        "sub-optimal DC result is dc-optimum/suboptimal/impedance-at-sn_mva only if the reference with the impedance rating as extra "
+        "limit reproduces pandapower's cost. Non-trivial = converged and "
         "(a cost on a load/storage/dcline or a quadratic/constant term or a pwl cost); distinct by case hash.")
 ASSUMPTIONS = ["oracle A tolerance 1e-6 * (1 + sum |cost parts|); AC OPF with pwl costs: a deviation <= 5e-3 is re-evaluated with 1000x tighter "
                "documented solver tolerances (PDIPM_*; the epigraph variable of a pwl cost meets the function only within them)", "oracle B tolerance 2e-4 * (1 + sum |cost parts|) + interior-point "
